@@ -142,7 +142,11 @@ func (g *Gen) DefineSome(n int, withCollision bool) {
 			k := r.Range(2, 3)
 			var ps []TxP
 			for j := 0; j < k; j++ {
-				ps = append(ps, g.TxParams())
+				p := g.TxParams()
+				if j > 0 {
+					p.Exec = ps[0].Exec // a group mixing para-chain and main-chain members is refused by types.Check
+				}
+				ps = append(ps, p)
 			}
 			rate := g.cfg.MinFee
 			if rate == 0 {
